@@ -28,6 +28,7 @@ def check(repo, tier="quick"):
     res.rule("C09.e", "component dimensions: subband_width/subband_height (not pinned to a listing) describe a dyadic pyramid: the padding unit equals the level-0 divisor, level 1 has the DC band's size, each further level halves the divisor in the directions its transform acts in, and the horizontal-only / 2D split is at dwt_depth_ho")
     res.rule("C09.g", "padding removal: delete_rows_after(a, k) deletes a[k:] and delete_columns_after(a, k) deletes row[k:] of every row, unconditionally or behind a guard on the matching dimension only (height / len(a) for rows, width / len(a[0]) for columns)")
     res.rule("C09.h", "the pinned pseudocode is nothing but the pseudocode: functions of vc2_conformance.pseudocode.* that are pinned to the standard contain no not-in-spec statement at all, except the reviewed invocation of the output callback at the end of picture_decode -- a shortcut added inside a `## Begin not in spec` region of clip, idwt, offset, ... escapes the repository's equivalence test and changes decoded sizes or values for the inputs it short-cuts")
+    res.rule("C09.i", "bug patterns with zero expected instances in the decoder's reach (truthiness of optional values such as the end-of-stream sentinel, swapped same-named arguments, last-iteration leaks, ...): a stream position that reads as 'end of stream' because the byte there is 0 silently drops every later picture")
     res.rule("C09.f", "sample ranges: every function in the decoder's reach computes with exact integers (no true division, math.*, float(), round() or float constants), so bit depths and clipping bounds are exact at any signal range")
     res.rule("C09.d", "parse_sequence calls picture_decode exactly after picture_parse and under fragmented_picture_done after fragment_parse; fragmented_picture_done is set exactly when the received slice count reaches slices_x * slices_y")
 
@@ -129,6 +130,10 @@ def check(repo, tier="quick"):
     res.floor("C09.g", 2)
     rule_h(repo, res, "C09.h")
     res.floor("C09.h", 30)
+    from .. import lints as _lints
+
+    _lints.rule(repo, res, "C09.i", ["decoder.io", "decoder.stream", "decoder.picture_syntax", "decoder.fragment_syntax", "decoder.transform_data_syntax", "pseudocode.picture_decoding", "pseudocode.arrays", "pseudocode.offsetting"])
+    res.floor("C09.i", 8)
     res.floor("C09.e", 10)
     res.floor("C09.f", 50)
     res.floor("C09.a", 1)
